@@ -25,6 +25,9 @@ type filesIn struct {
 	DirOnly  bool        `json:"dirOnly"`
 	Suffixes []string    `json:"suffixes"`
 	Chdir    *string     `json:"chdir"` // ActionFiles().Chdir(target); may contain $ROOT
+	// zsh named directories (`hash -d name=dir`, handed over in CARAPACE_ZSH_HASH_DIRS): name -> directory (may contain $ROOT);
+	// the typed path or the Chdir target may then have the form `~name/...`
+	Named map[string]string `json:"named"`
 }
 
 type dirEntryOut struct {
@@ -94,6 +97,22 @@ func runFiles(raw json.RawMessage) interface{} {
 			os.Symlink(sub(e.Target), p)
 		}
 	}
+	named := map[string]string{}
+	for k, v := range in.Named {
+		named[k] = sub(v)
+	}
+	carapace.VerifZshNamedDirectories(named)
+	defer carapace.VerifZshNamedDirectories(map[string]string{})
+	// `~name/rest` -> the named directory followed by rest (what zsh itself would expand)
+	expandNamed := func(p string) (string, bool) {
+		if strings.HasPrefix(p, "~") && !strings.HasPrefix(p, "~/") && strings.Contains(p, "/") {
+			parts := strings.SplitN(p, "/", 2)
+			if t, ok := named[parts[0][1:]]; ok {
+				return strings.TrimSuffix(t, "/") + "/" + parts[1], true
+			}
+		}
+		return p, false
+	}
 	ctxDir := filepath.Join(root, in.CtxDir)
 	os.MkdirAll(ctxDir, 0o755)
 	// the process works somewhere else
@@ -105,6 +124,9 @@ func runFiles(raw json.RawMessage) interface{} {
 	chdirOK := true
 	if in.Chdir != nil {
 		t := sub(*in.Chdir)
+		if e, ok := expandNamed(t); ok {
+			t = e
+		}
 		if filepath.IsAbs(t) {
 			effDir = t
 		} else {
@@ -119,7 +141,10 @@ func runFiles(raw json.RawMessage) interface{} {
 		dirPart = typed[:i+1]
 	}
 	var denoted string
+	expandedDir, isNamed := expandNamed(dirPart)
 	switch {
+	case isNamed:
+		denoted = expandedDir
 	case strings.HasPrefix(dirPart, "~/"):
 		denoted = home + "/" + dirPart[2:]
 	case strings.HasPrefix(dirPart, "/"):
@@ -267,6 +292,40 @@ func genFiles(r *rng, tier string) interface{} {
 	in.DirOnly = r.chance(30)
 	if !in.DirOnly && r.chance(30) {
 		in.Suffixes = pick(r, [][]string{{".go"}, {".txt", ".md"}, {""}, {".c"}, {"go.mod", ".md"}, {".tar.gz"}, {"_test.go"}, {"Makefile", "file"}, {"b"}})
+	}
+	if r.chance(7) {
+		// a zsh named directory: `~name/...` typed, or as the Chdir target
+		d := pick(r, dirs)
+		in.Named = map[string]string{pick(r, []string{"proj", "w", "a"}): "$ROOT/" + d}
+		if r.chance(30) {
+			in.Named["other"] = "$ROOT/" + pick(r, dirs) + "/"
+		}
+		var name string
+		for k := range in.Named {
+			if k != "other" {
+				name = k
+			}
+		}
+		// something below the named directory
+		below := []string{}
+		for _, c := range all {
+			if d == "" || strings.HasPrefix(c, d+"/") {
+				below = append(below, strings.TrimPrefix(strings.TrimPrefix(c, d), "/"))
+			}
+		}
+		rest := ""
+		if len(below) > 0 {
+			rr := []rune(pick(r, below))
+			rest = string(rr[:r.intn(len(rr)+1)])
+		}
+		if r.chance(25) {
+			t := "~" + name + "/" + pick(r, []string{"", "sub", "dir", "a"})
+			in.Chdir = &t
+			in.Typed = pick(r, []string{"", "a", "s", "f"})
+		} else {
+			in.Typed = "~" + name + "/" + rest
+		}
+		return in
 	}
 	if r.chance(4) {
 		// the file system root as the Chdir target (the process itself runs elsewhere)
